@@ -223,18 +223,6 @@ def run(repo, rep, tier):
     from props import _dbcopy
     from sa.consteval import ConstEnv as _CE
     _dbcopy.check_private_copy(repo, rep, 'registry', _CE(repo), 'in-place edits made while scanning one target (Terrapin, key-size and modulus notes) reach the master table and every later target')
-    for cls_name, modname in (('SSH2_KexDB', 'ssh2_kexdb'), ('SSH1_KexDB', 'ssh1_kexdb')):
-        gd = repo.func(modname, cls_name + '.get_db')
-        te = repo.func(modname, cls_name + '.thread_exit')
-        rep.saw(gd), rep.saw(te)
-        stores = [n for n in walk_no_nested(gd) if isinstance(n, ast.Assign) and isinstance(n.targets[0], ast.Subscript) and unparse(n.targets[0].value) == cls_name + '.DB_PER_THREAD']
-        rets = [r for r in walk_no_nested(gd) if isinstance(r, ast.Return)]
-        ok = len(rets) == 1 and unparse(rets[0].value) == '%s.DB_PER_THREAD[calling_thread_id]' % cls_name
-        rep.check('registry', '%s.get_db returns the calling thread\'s entry' % cls_name, ok, rets[0] if rets else gd, 'get_db returns %s' % [unparse(r.value) for r in rets])
-        dels = [n for n in walk_no_nested(te) if isinstance(n, ast.Delete) and unparse(n.targets[0]) == '%s.DB_PER_THREAD[calling_thread_id]' % cls_name]
-        ok = len(dels) == 1 and [(unparse(t), p) for t, p, k in path_condition(dels[0])] == [('calling_thread_id in %s.DB_PER_THREAD' % cls_name, True)]
-        rep.check('registry', '%s.thread_exit deletes the calling thread\'s entry' % cls_name, ok, dels[0] if dels else te, 'thread_exit does not delete the calling thread\'s entry')
-
     # ---- rule 3: acquire/release typestate on every pool task ------------------------------------------------------------------
     getdbs = [repo.func('ssh2_kexdb', 'SSH2_KexDB.get_db'), repo.func('ssh1_kexdb', 'SSH1_KexDB.get_db')]
     exits_fn = {'SSH2_KexDB.thread_exit': repo.func('ssh2_kexdb', 'SSH2_KexDB.thread_exit'), 'SSH1_KexDB.thread_exit': repo.func('ssh1_kexdb', 'SSH1_KexDB.thread_exit')}
